@@ -254,6 +254,12 @@ func (s *slicer) walk(v ssa.Value, visit func(ssa.Value), depth int) {
 						s.walk(st, visit, depth+1)
 					}
 				}
+				// an array literal / variadic argument pack: the values stored into its elements
+				if ia, ok := ref.(*ssa.IndexAddr); ok {
+					for _, st := range storesTo(ia) {
+						s.walk(st, visit, depth+1)
+					}
+				}
 			}
 		}
 	case *ssa.Call:
@@ -982,4 +988,161 @@ func edgeEstablishes(pred func(Fact) bool) func(d *ssa.BasicBlock, k int) bool {
 		}
 		return false
 	}
+}
+
+// sinksReachable walks forward from just after instruction `from` and returns every
+// instruction satisfying sink that can execute without first executing a barrier
+// instruction or traversing a blocked conditional edge.
+func sinksReachable(from ssa.Instruction, barrier func(ssa.Instruction) bool, edgeBlocked func(d *ssa.BasicBlock, k int) bool, sink func(ssa.Instruction) bool) []ssa.Instruction {
+	var out []ssa.Instruction
+	seen := map[*ssa.BasicBlock]bool{}
+	var walkBlock func(b *ssa.BasicBlock, start int)
+	walkBlock = func(b *ssa.BasicBlock, start int) {
+		for i := start; i < len(b.Instrs); i++ {
+			ins := b.Instrs[i]
+			if barrier != nil && barrier(ins) {
+				return
+			}
+			if sink(ins) {
+				out = append(out, ins)
+				return
+			}
+		}
+		for k, s := range b.Succs {
+			if edgeBlocked != nil && len(b.Succs) == 2 && b.Succs[0] != b.Succs[1] && edgeBlocked(b, k) {
+				continue
+			}
+			if !seen[s] {
+				seen[s] = true
+				walkBlock(s, 0)
+			}
+		}
+	}
+	b := from.Block()
+	idx := 0
+	for i, ins := range b.Instrs {
+		if ins == from {
+			idx = i + 1
+		}
+	}
+	walkBlock(b, idx)
+	return out
+}
+
+// forwardReaches follows the uses of v (phis, conversions, append arguments and results,
+// stores into locals and their loads, slices) and reports whether some use satisfies pred.
+func forwardReaches(v ssa.Value, pred func(user ssa.Instruction, via ssa.Value) bool) bool {
+	seen := map[ssa.Value]bool{}
+	var walk func(v ssa.Value, depth int) bool
+	walk = func(v ssa.Value, depth int) bool {
+		if v == nil || seen[v] || depth > 40 {
+			return false
+		}
+		seen[v] = true
+		refs := v.Referrers()
+		if refs == nil {
+			return false
+		}
+		for _, u := range *refs {
+			if pred(u, v) {
+				return true
+			}
+			switch x := u.(type) {
+			case *ssa.Phi, *ssa.ChangeType, *ssa.Convert, *ssa.MakeInterface, *ssa.Slice, *ssa.ChangeInterface:
+				if walk(x.(ssa.Value), depth+1) {
+					return true
+				}
+			case *ssa.Call:
+				if b, ok := x.Call.Value.(*ssa.Builtin); ok && b.Name() == "append" {
+					if walk(x, depth+1) {
+						return true
+					}
+				}
+			case *ssa.Store:
+				if x.Val == v {
+					switch a := x.Addr.(type) {
+					case *ssa.IndexAddr:
+						// element of an array pack / slice: the container's later uses
+						if walk(a.X, depth+1) {
+							return true
+						}
+					case *ssa.Alloc:
+						for _, r := range *a.Referrers() {
+							if ld, ok := r.(*ssa.UnOp); ok && ld.Op == token.MUL {
+								if walk(ld, depth+1) {
+									return true
+								}
+							}
+							// captured by a closure: follow the free variable's loads
+							if mc, ok := r.(*ssa.MakeClosure); ok {
+								if f, ok := mc.Fn.(*ssa.Function); ok {
+									for i, bnd := range mc.Bindings {
+										if bnd == ssa.Value(a) && i < len(f.FreeVars) {
+											for _, r2 := range *f.FreeVars[i].Referrers() {
+												if ld, ok := r2.(*ssa.UnOp); ok && ld.Op == token.MUL {
+													if walk(ld, depth+1) {
+														return true
+													}
+												}
+											}
+										}
+									}
+								}
+							}
+						}
+					case *ssa.FreeVar:
+						// stored into a variable of the enclosing function: follow its loads there
+						fn := x.Parent()
+						hit := false
+						if fn.Parent() != nil {
+							allInstrs(fn.Parent(), false, func(_ *ssa.Function, ins ssa.Instruction) {
+								if mc, ok := ins.(*ssa.MakeClosure); ok && mc.Fn == fn {
+									for i, fv := range fn.FreeVars {
+										if fv == a && i < len(mc.Bindings) {
+											if al, ok := mc.Bindings[i].(*ssa.Alloc); ok {
+												for _, r := range *al.Referrers() {
+													if ld, ok := r.(*ssa.UnOp); ok && ld.Op == token.MUL {
+														if walk(ld, depth+1) {
+															hit = true
+														}
+													}
+												}
+											}
+										}
+									}
+								}
+							})
+						}
+						if hit {
+							return true
+						}
+					}
+				}
+			}
+		}
+		return false
+	}
+	return walk(v, 0)
+}
+
+// bindingOf resolves a free variable to the value bound to it where the closure is made.
+func bindingOf(fv *ssa.FreeVar) ssa.Value {
+	fn := fv.Parent()
+	if fn == nil || fn.Parent() == nil {
+		return nil
+	}
+	var out ssa.Value
+	allInstrs(fn.Parent(), false, func(_ *ssa.Function, ins ssa.Instruction) {
+		if mc, ok := ins.(*ssa.MakeClosure); ok && mc.Fn == fn {
+			for i, f := range fn.FreeVars {
+				if f == fv && i < len(mc.Bindings) {
+					out = mc.Bindings[i]
+				}
+			}
+		}
+	})
+	if inner, ok := out.(*ssa.FreeVar); ok {
+		return bindingOf(inner)
+	}
+	return out
 }
